@@ -57,3 +57,33 @@ Fixpoint perm_match (es os : list ReplyDoc) : bool :=
   | e :: r => take_match e [] os (perm_match r)
   end.
 Definition rpc_session_eqb (model observed : list ReplyDoc) : bool := perm_match model observed.
+
+(* ---- JSON text forms of the block fields (JsonText.v) *)
+From ZV Require Import Dec JsonText.
+Inductive JtPrint := PAmount (z : Z) | PU64 (z : Z) | PNonce (b : bytes) | PHash (b : bytes) | PAddr (b : bytes)
+                   | PZts (b : bytes) | PData (b : bytes).
+Definition jt_print_run (i : JtPrint) : bytes :=
+  match i with
+  | PAmount z => print_amount z
+  | PU64 z => print_u64 z
+  | PNonce b => print_nonce b
+  | PHash b => print_hash b
+  | PAddr b => print_address b
+  | PZts b => print_zts b
+  | PData b => print_data b
+  end.
+Inductive JtParse := JAmount (s : bytes) | JU64 (s : bytes) | JNonceNom (s : bytes) | JNonceApi (s : bytes)
+                   | JHash (s : bytes) | JAddr (s : bytes) | JZts (s : bytes) | JData (j : BytesJson).
+(* None = the unmarshaller refuses the block; amounts and uint64 as one-element lists *)
+Definition jt_parse_run (i : JtParse) : option (list Z) :=
+  match i with
+  | JAmount s => Some [parse_amount s]
+  | JU64 s => option_map (fun v => [v]) (parse_u64_field s)
+  | JNonceNom s => parse_nonce_nom s
+  | JNonceApi s => Some (parse_nonce_api s)
+  | JHash s => parse_hash s
+  | JAddr s => parse_address s
+  | JZts s => parse_zts s
+  | JData j => parse_data j
+  end.
+Definition jt_parse_eqb : option (list Z) -> option (list Z) -> bool := option_eqb zlist_eqb.
